@@ -199,9 +199,14 @@ def render(unit, template_name, rendering, carved, active_kf, canary_item=None):
         m = re.match(r"\s*//@item\s+(\S+)", line)
         mc = re.match(r"\s*//@carve\s+([\w-]+)\s+(.*)$", line)
         mn = re.match(r"\s*//@uncarved\s+([\w-]+)\s+(.*)$", line)
-        mi = re.match(r"\s*//@include\s+(\S+)", line)
+        mi = re.match(r"\s*//@include\s+(\S+)(.*)$", line)
         if mi:
-            out_lines.extend(open(os.path.join(VERIF, mi.group(1))).read().rstrip("\n").split("\n"))
+            inc = open(os.path.join(VERIF, mi.group(1))).read()
+            # `//@include file KEY=VAL` overrides a `/*KEY*/ default` constant of the shim
+            for kv in mi.group(2).split():
+                k, _, v = kv.partition("=")
+                inc = re.sub(r"/\*%s\*/\s*\w+" % re.escape(k), "/*%s*/ %s" % (k, v), inc)
+            out_lines.extend(inc.rstrip("\n").split("\n"))
             continue
         if m:
             iid = m.group(1)
